@@ -111,15 +111,21 @@ def arg_def(j, a, rng):
             tags = ["safe"]
     safety = None if a["decl"] == "undeclared" else a["decl"]
     if len(e) == 1 and e[0] <= 0:
-        kind = rng.choice(["query", "header", "body"])
+        kind = rng.choice(["query", "header", "body", "path"])
         ty = atom_type(e[0], rng) if e[0] == -1 else ir.prim(rng.choice(["STRING", "INTEGER", "RID", "BOOLEAN"]))
         if kind == "query" and rng.chance(1, 3):
             ty = rng.choice([ir.optional, ir.list_, ir.set_])(ty)
+        elif kind in ("header", "body") and rng.chance(1, 3):
+            ty = ir.optional(ty)
     else:
         kind = "body"
         ty = expr_type(e, rng)
     return ir.arg(name, ty, kind, param_id=("X-%s" % name if kind == "header" else name), safety=safety,
                   markers=markers, tags=tags)
+
+
+def ep_path(base, args):
+    return base + "".join("/{%s}" % a["argName"] for a in args if a["paramType"]["type"] == "path")
 
 
 def case_to_ir(case, rng, layout):
@@ -129,7 +135,7 @@ def case_to_ir(case, rng, layout):
     types = [type_def(t + 1, d, rng) for t, d in enumerate(tab)]
     adefs = [arg_def(j + 1, a, rng) for j, a in enumerate(args)]
     if layout == 0:
-        eps = [ir.endpoint("e%d" % (j + 1), "POST", "/e%d" % (j + 1), [a]) for j, a in enumerate(adefs)]
+        eps = [ir.endpoint("e%d" % (j + 1), "POST", ep_path("/e%d" % (j + 1), [a]), [a]) for j, a in enumerate(adefs)]
         services = [ir.service("S1", eps)]
     else:
         types = rng.shuffle(types)
@@ -152,7 +158,7 @@ def case_to_ir(case, rng, layout):
             if cur:
                 eps.append(cur)
             services.append(ir.service("S%d" % (si + 1),
-                                       [ir.endpoint("e%d" % (k + 1), "POST", "/s%d/e%d" % (si + 1, k + 1), e)
+                                       [ir.endpoint("e%d" % (k + 1), "POST", ep_path("/s%d/e%d" % (si + 1, k + 1), e), e)
                                         for k, e in enumerate(eps)]))
         services = [s for s in services if s["endpoints"]]
     return ir.definition(types=types, services=services)
